@@ -79,14 +79,12 @@ def deliverInterrupt (body : σ → Resume → Burst τ σ) (fuel : Nat) (iv p :
 /-- what the callback loop of `step` carries along -/
 structure LoopSt (τ σ : Type) where
   s : KState τ σ
-  /-- `StopSimulation` was raised by a callback of this event (the stop is deferred to the end of the loop) -/
-  stop : Option Val := none
-  /-- a callback raised: the loop was abandoned with this exception -/
-  abort : Option Exc := none
+  /-- `StopSimulation` was raised by a callback of this event, carrying the event's outcome (the stop is deferred to
+  the end of the loop, for successful and failed until-events alike) -/
+  stop : Option Outcome := none
 
 /-- one callback invocation `callback(event)` -/
 def runCb (body : σ → Resume → Burst τ σ) (fuel : Nat) (e : EvId) (l : LoopSt τ σ) (cb : Cb) : LoopSt τ σ :=
-  if l.abort.isSome then l else
   let s := l.s
   match cb with
   | .resume p => { l with s := resume body p fuel e s }
@@ -96,11 +94,7 @@ def runCb (body : σ → Resume → Burst τ σ) (fuel : Nat) (e : EvId) (l : Lo
       | some o => o
       | none => Outcome.ok .none
     { l with s := s.emit (.probe tag e o s.now) }
-  | .stop =>
-    match (s.ev e).out with
-    | some (.fail x) => { l with abort := some x }
-    | some (.ok v) => { l with stop := some v }
-    | none => { l with stop := some .none }
+  | .stop => { l with stop := some ((s.ev e).out.getD (.ok .none)) }
   | .intr iv =>
     match (s.ev iv).kind with
     | .intr p => { l with s := deliverInterrupt body fuel iv p s }
@@ -112,8 +106,8 @@ def runCb (body : σ → Resume → Burst τ σ) (fuel : Nat) (e : EvId) (l : Lo
 
 inductive StepResult (τ σ : Type) where
   | ok (s : KState τ σ)
-  /-- `StopSimulation(value)` left `step()` -/
-  | stopped (v : Val) (s : KState τ σ)
+  /-- `StopSimulation(outcome of the until-event)` left `step()` -/
+  | stopped (o : Outcome) (s : KState τ σ)
   | empty
   /-- an exception left `step()` -/
   | crash (x : Exc) (s : KState τ σ)
@@ -124,15 +118,12 @@ def openEvent (s : KState τ σ) (q : QEntry τ) (rest : List (QEntry τ)) : KSt
 
 /-- after the callback loop -/
 def closeEvent (l : LoopSt τ σ) (e : EvId) : StepResult τ σ :=
-  match l.abort with
-  | some x => .crash x l.s
+  match l.stop with
+  | some o => .stopped o l.s
   | none =>
-    match l.stop with
-    | some v => .stopped v l.s
-    | none =>
-      match (l.s.ev e).out with
-      | some (.fail x) => if (l.s.ev e).defused then .ok l.s else .crash x l.s
-      | _ => .ok l.s
+    match (l.s.ev e).out with
+    | some (.fail x) => if (l.s.ev e).defused then .ok l.s else .crash x l.s
+    | _ => .ok l.s
 
 /-- `Environment.step` -/
 def step (body : σ → Resume → Burst τ σ) (fuel : Nat) (s : KState τ σ) : StepResult τ σ :=
@@ -152,28 +143,40 @@ inductive RunResult (τ σ : Type) where
   /-- the step budget of the model ran out (never reported as a result of the implementation) -/
   | outOfFuel (s : KState τ σ)
 
-/-- the `while True: self.step()` loop of `run`; `untilSet` = an `until` argument was given -/
-def runLoop (body : σ → Resume → Burst τ σ) (fuel : Nat) (untilSet : Bool) : Nat → KState τ σ → RunResult τ σ
+/-- what `run` does with a `StopSimulation(outcome)` that left `step()`: if its own until-event has failed it
+re-raises that event's exception, otherwise it returns the value the stop carries (for a stale stop of an earlier,
+aborted `run` on a failed event that is the exception object) -/
+def onStop (untilEv : Option EvId) (o : Outcome) (s : KState τ σ) : RunResult τ σ :=
+  match untilEv.bind (fun e => (s.ev e).out) with
+  | some (.fail x) => .raised x s
+  | _ =>
+    match o with
+    | .ok v => .returned v s
+    | .fail x => .returned (.str x.ty) s
+
+/-- the `while True: self.step()` loop of `run`; `untilEv` = the until-event (the sentinel for a numeric until) -/
+def runLoop (body : σ → Resume → Burst τ σ) (fuel : Nat) (untilEv : Option EvId) : Nat → KState τ σ → RunResult τ σ
   | 0, s => .outOfFuel s
   | n + 1, s =>
     match step body fuel s with
-    | .ok s' => runLoop body fuel untilSet n s'
-    | .stopped v s' => .returned v s'
+    | .ok s' => runLoop body fuel untilEv n s'
+    | .stopped o s' => onStop untilEv o s'
     | .crash x s' => .raised x s'
-    | .empty => if untilSet then .raised (runtimeErr "No scheduled events left but \"until\" event was not triggered") s
+    | .empty => if untilEv.isSome then .raised (runtimeErr "No scheduled events left but \"until\" event was not triggered") s
                 else .returned .none s
 
 /-- `run(until=None)` -/
 def runAll (body : σ → Resume → Burst τ σ) (fuel n : Nat) (s : KState τ σ) : RunResult τ σ :=
-  runLoop body fuel false n s
+  runLoop body fuel none n s
 
 /-- `run(until=at)` for a number `at` -/
 def runUntilTime (body : σ → Resume → Burst τ σ) (fuel n : Nat) (at_ : τ) (s : KState τ σ) : RunResult τ σ :=
   if at_ ≤ s.now then .raised (valueErr "until must be > the current simulation time") s else
-  let (s, u) := s.newEv { kind := .sentinel, cbs := some [], out := some (.ok .none) }
+  let u := s.events.size
+  let s := (s.newEv { kind := .sentinel, cbs := some [], out := some (.ok .none) }).1
   let s := s.scheduleAt u URGENT at_
   let s := s.addCb u .stop
-  runLoop body fuel true n s
+  runLoop body fuel (some u) n s
 
 /-- `run(until=event)` -/
 def runUntilEvent (body : σ → Resume → Burst τ σ) (fuel n : Nat) (e : EvId) (s : KState τ σ) : RunResult τ σ :=
@@ -182,4 +185,4 @@ def runUntilEvent (body : σ → Resume → Burst τ σ) (fuel n : Nat) (e : EvI
     | some (.ok v) => .returned v s
     | some (.fail x) => .returned (.str x.ty) s   -- `until.value` of a failed event is the exception object
     | none => .returned .none s
-  else runLoop body fuel true n (s.addCb e .stop)
+  else runLoop body fuel (some e) n (s.addCb e .stop)
